@@ -288,12 +288,20 @@ fn write_workspace(dir: &Path, progs: &[E], ncrates: usize) -> std::io::Result<V
 
 const HEADER_LINES: usize = 6;
 
+fn gen_target() -> String {
+    format!("{}/gen", std::env::var("VERIF_TARGET").unwrap_or_else(|_| "/verif/.target".into()))
+}
+
+fn gen_dir(name: &str) -> PathBuf {
+    explore::verif_root().join(".gen").join(name)
+}
+
 fn cargo(dir: &Path, args: &[&str]) -> std::process::Output {
     Command::new("cargo")
         .args(args)
         .current_dir(dir)
         .env("CARGO_NET_OFFLINE", "true")
-        .env("CARGO_TARGET_DIR", "/verif/.target/gen")
+        .env("CARGO_TARGET_DIR", gen_target())
         .env_remove("RUSTFLAGS")
         .output()
         .expect("run cargo")
@@ -308,7 +316,7 @@ fn show(p: &E) -> (String, String) {
 }
 
 fn run_programs(rep: &mut Report, progs: &[E], tier: Tier, name: &str) {
-    let dir = PathBuf::from(format!("/verif/.gen/{name}"));
+    let dir = gen_dir(name);
     let ncrates = tier.pick(16, 64);
     let ranges = match write_workspace(&dir, progs, ncrates) {
         Ok(r) => r,
@@ -358,7 +366,7 @@ fn run_programs(rep: &mut Report, progs: &[E], tier: Tier, name: &str) {
             t.outcome_n("program: in a crate that failed to compile (not executed)", (hi - lo) as u64);
             continue;
         }
-        let bin = PathBuf::from(format!("/verif/.target/gen/debug/m{ci:02}"));
+        let bin = PathBuf::from(format!("{}/debug/m{ci:02}", gen_target()));
         let o = match Command::new(&bin).output() {
             Ok(o) => o,
             Err(e) => {
@@ -414,7 +422,7 @@ fn main() {
     // setup: build the dependencies of the generated workspace once
     if std::env::args().nth(1).as_deref() == Some("--prebuild") {
         let progs = vec![E::Null, E::Arr(vec![E::Lit("1")], true)];
-        let dir = PathBuf::from("/verif/.gen/prebuild");
+        let dir = gen_dir("prebuild");
         write_workspace(&dir, &progs, 1).expect("write");
         let o = cargo(&dir, &["build", "--offline", "--workspace"]);
         std::process::exit(if o.status.success() { 0 } else { 2 });
@@ -425,7 +433,7 @@ fn main() {
         // a replay is one program: compile and run it alone
         let rust = j["case"]["rust"].as_str().unwrap_or("json!(null)").to_string();
         let text = j["case"]["json"].as_str().unwrap_or("null").to_string();
-        let dir = PathBuf::from("/verif/.gen/replay");
+        let dir = gen_dir("replay");
         let _ = std::fs::remove_dir_all(&dir);
         std::fs::create_dir_all(dir.join("m00/src")).unwrap();
         std::fs::write(dir.join("Cargo.toml"), "[workspace]\nresolver = \"2\"\nmembers = [\"m00\"]\n").unwrap();
